@@ -2,6 +2,7 @@ package rpc
 
 import (
 	"context"
+	"sync/atomic"
 
 	"capnproto.org/go/capnp/v3"
 	rpccp "capnproto.org/go/capnp/v3/std/capnp/rpc"
@@ -173,6 +174,10 @@ type embargo struct {
 	c      *capnp.Client
 	p      *capnp.ClientPromise
 	lifted chan struct{}
+
+	// ends counts lift and Shutdown; c is released by whichever comes
+	// last, so that lift never fulfills with a released client.
+	ends int32
 }
 
 // embargo creates a new embargoed client, stealing the reference.
@@ -207,6 +212,14 @@ func (c *Conn) findEmbargo(id embargoID) *embargo {
 func (e *embargo) lift() {
 	close(e.lifted)
 	e.p.Fulfill(e.c)
+	e.end()
+}
+
+// end is called once by lift and once by Shutdown.
+func (e *embargo) end() {
+	if atomic.AddInt32(&e.ends, 1) == 2 {
+		e.c.Release()
+	}
 }
 
 func (e *embargo) Send(ctx context.Context, s capnp.Send) (*capnp.Answer, capnp.ReleaseFunc) {
@@ -233,7 +246,7 @@ func (e *embargo) Brand() capnp.Brand {
 }
 
 func (e *embargo) Shutdown() {
-	e.c.Release()
+	e.end()
 }
 
 // senderLoopback holds the salient information for a sender-loopback
